@@ -9,7 +9,7 @@ import random
 
 import numpy as np
 
-POLICIES = ["first", "last", "least", "uniform", "alternate", "most"]
+POLICIES = ["first", "last", "least", "uniform", "alternate", "most", "ascending"]
 
 
 def _validate(a, size, p):
@@ -59,6 +59,10 @@ class AdversarialChooser:
             idx = [j] * k
         elif pol == "alternate":
             idx = [support[i % len(support)] for i in range(k)]
+        elif pol == "ascending":
+            # distinct outcomes, the least probable ones first
+            order = sorted(support, key=lambda i: (p[i] if p is not None else 0, i))
+            idx = [order[i % len(order)] for i in range(k)]
         else:
             idx = [self.r.choice(support) for _ in range(k)]
         self.stats[f"rng-adversarial-{pol}"] += 1
